@@ -575,6 +575,12 @@ def run(ck):
                     name = rng.choice(["pore_size", "form", "BET-area", "lot.7", "a" + P + "b", "x" + P, P + "q", P + P + "z", P[1:] + "k", "a" + P[:-1], "Q" + P + "r" + P])
                     props[name] = rng.choice(texts) if rng.random() < 0.3 else round(rng.uniform(0.1, 900), rng.randint(1, 5)) if rng.random() < 0.7 else rng.choice(isogen.TEXT_FLOATS) if rng.random() < 0.4 else (rng.random() < 0.5)
                 c["material_props"] = props
+            # a float negative zero, in every run, as a metadata value and as a material-property value (no draw from rng: the rest of the stream is the same
+            # with and without it).  CSV / AIF spell it "-0.0" and read it back with its sign; Excel returns 0.0 (S55-C07-xlnegzero)
+            if i % 15 == 3:
+                c["meta"]["baseline"] = -0.0
+            elif i % 15 == 8:
+                c["material_props"] = {**c["material_props"], "offset": -0.0}
             try:
                 iso = _build(pg, c)
             except Exception:
@@ -660,7 +666,19 @@ def run(ck):
                     ck.fail_case({**sig, "clause": "silently changed" if where.startswith("metadata") and odd and "odd_one" in where else "round trip differs",
                                   "where": where.split(" ")[0], "value_class": vclass}, {"where": where, "exported": a, "imported": b, "meta": _js(c["meta"]), "content": _content(c)})
                 if not diffs and not captured and back.iso_id != iso.iso_id:
-                    ck.fail_case({**sig, "clause": "identifier differs although content is equal"}, {"ids": [iso.iso_id, back.iso_id]})
+                    idsig = dict(sig)
+                    if _has_negzero(c):
+                        ck.count((fmt, c["kind"], i, "negzero-id"), nontrivial=False, bucket=f"negative zero value {fmt}: identifier differs")
+                        try:
+                            # the zero lost its sign and NOTHING else: the same content with +0.0 has the identifier of the imported isotherm
+                            if _build(pg, _without_negzero(c)).iso_id == back.iso_id:
+                                idsig["negative_zero_value"] = True
+                        except Exception:  # noqa
+                            pass
+                    ck.fail_case({**idsig, "clause": "identifier differs although content is equal"},
+                                 {"ids": [iso.iso_id, back.iso_id], "meta": _js(c["meta"]), "material_props": _js(c["material_props"]), "content": _content(c)})
+                elif not diffs and not captured and _has_negzero(c):
+                    ck.count((fmt, c["kind"], i, "negzero"), nontrivial=False, bucket=f"negative zero value {fmt}: comes back with its sign (identifier equal)")
                 # the document the real writer produced has the structure the generated tables describe (ties Gen/Formats to the writers)
                 if G is not None and doc is not None:
                     try:
@@ -685,20 +703,21 @@ def run(ck):
                       "generated tables against the imported objects and against the documents the writers produce; "
                       "B: three formats x three classes x seeded unit configurations x data shapes (1-13 points, ads-only / two-branch / des-only / user marks, numeric extra columns, zeros at any position of any column, "
                       "zero and negative temperatures, every model with given ranges and models fitted on data) with metadata from the format domain "
-                      "(in-domain text as decided by the Lean predicate, non-negative ints, floats, bools) plus AT MOST ONE of: an out-of-domain value (40 %), a last metadata key that begins with a section / dispatch prefix "
+                      "(in-domain text as decided by the Lean predicate, non-negative ints, floats - a negative zero as metadata value and as material-property value in every run -, bools) plus AT MOST ONE of: an out-of-domain value (40 %), a last metadata key that begins with a section / dispatch prefix "
                       "or a material-property prefix of a format, taken from the generated tables (22 %), material properties whose names contain such a prefix at the start / inside / at the end (20 %); "
                       "string and file targets; distinct = (format, class, content); "
                       "C: one format-significant character (, ; tab | newline CR quotes blank brackets = # _ $ : \\ and other punctuation; the separator in use and the format's own characters in every run, "
                       "the rest sampled) at one position class (start, middle, end, repeated at the end / start / inside, alone, alone repeated, both ends, several, wrapped in a pair) of a plain text used as "
                       "metadata value / metadata key / material name / material-property value / material-property name, x CSV under separators , ; tab | (string and file), AIF (string), Excel x three classes "
-                      "with seeded units and data; oracle: refused with a pyGAPS error or equal; regions where the unchanged tree changes the text silently are excluded (`_ood_excluded`, counted in "
-                      "`C excluded: …`)")
+                      "with seeded units and data; oracle: refused with a pyGAPS error or equal; the regions of the recorded findings S55-C07a…e are generated (signature key `region`, counted in `C region …`), "
+                      "keys / property names with a blank character where the unchanged tree loses it are outside the stated key domain (`_ood_region`, counted in `C outside: …`)")
     ck.assumptions += ["gemmi.cif, xlrd/xlwt, pandas.read_csv/to_csv are exercised by the round trips only", "digits of non-ASCII scripts are outside the model alphabet",
                        "_from_list is modelled on flat sequences of numeric literals over digits, sign, '.', 'e', '_' (nested sequences, quoted text, complex / hex literals outside)",
                        "special metadata keys: prefix + a tail of letters / digits / underscore, never a name the format writes itself (`model_name`, `data0`); their values and the values of the special material "
                        "properties are in-domain text, floats or booleans (integers come back as floats from Excel: S18-xl-int)",
-                       "stream C leaves out (recorded / candidate findings C1-C7, see `_ood_excluded`): CSV values ending in a blank character, CSV values / keys with a line break after which no line is refused, "
-                       "CSV keys beginning with a blank character, AIF file targets, AIF values beginning / ending with ' or in square brackets, AIF keys with a blank or ending in a blank character",
+                       "stream C leaves out (outside the stated key domain 'keys without separator or blank', see `_ood_region`): CSV keys beginning with a blank character, CSV keys with a line break "
+                       "after which no line is refused, AIF keys / property names with a blank or ending in a blank character; the value regions of the former candidates C1, C2, C5, C6 are generated "
+                       "(recorded S55-C07a…e), AIF file targets are generated (C4, repaired: S55-C07f)",
                        "material-property names and metadata keys with a blank are outside the stated key domain (AIF writes them with underscores: theorem aifKey_blank_changed; tied in step A4)"]
 
 
@@ -713,7 +732,8 @@ SIG_CHARS = ",;\t|\n\r\"' []()=#_$:\\{}&<>?*!%@~^/`"
 CHAR_NAMES = {",": "comma", ";": "semicolon", "\t": "tab", "|": "bar", "\n": "newline", "\r": "carriage return", '"': "double quote", "'": "single quote", " ": "blank",
               "[": "square bracket", "]": "square bracket", "(": "round bracket", ")": "round bracket", "{": "brace", "}": "brace", "=": "equals", "#": "hash", "_": "underscore",
               "$": "dollar", ":": "colon", "\\": "backslash"}
-POSITIONS = ["start", "middle", "end", "end repeated", "alone", "start repeated", "both ends", "alone repeated", "middle repeated", "several", "wrapped"]
+POSITIONS = ["start", "middle", "end", "end repeated", "alone", "start repeated", "both ends", "alone repeated", "middle repeated", "several", "wrapped", "injected line",
+             "injected section line"]
 WRAPS = ["[]", "()", "{}", '""', "''", "<>"]
 OOD_TARGETS = ["metadata value", "metadata key", "material name", "material property value", "material property name"]
 OOD_FORMATS = [("csv", ","), ("csv", ";"), ("csv", "\t"), ("csv", "|"), ("aif", None), ("xl", None)]
@@ -721,69 +741,170 @@ OOD_BODIES = ["ab", "see notes", "batch 7", "Zr-MOF", "µm x", "q", "lot.7b", "x
 OOD_KEY_BODIES = ["kx", "note", "q7", "lot.7b", "Zr-MOF", "ab", "x1"]
 
 
-def _ood_place(rng, c, pos, bodies):
+def _ood_place(rng, c, pos, bodies, sep=",", stops=(), key_bodies=OOD_KEY_BODIES):
     a, b = rng.choice(bodies), rng.choice(bodies)
     if pos == "wrapped":
-        w = rng.choice(WRAPS)
+        own = [w for w in WRAPS if c in w]       # the pair the character belongs to (so that the format's own pairs are wrapped around a text in every run), else any
+        w = rng.choice(own or WRAPS)
         return w[0] + a + w[1]
+    if pos == "injected line":              # the character, then a text that reads as a `key<sep>value` line of the format
+        return a + c + rng.choice(key_bodies) + (sep or ",") + b
+    if pos == "injected section line":      # the character, then a text that begins like a section header of the CSV format (generated table)
+        return a + c + rng.choice(list(stops) or ["data"]) + rng.choice(["set", "_x", "ling", ""])
     return {"start": c + a, "middle": a + c + b, "end": a + c, "end repeated": a + c * rng.choice([2, 2, 3]), "alone": c, "start repeated": c + c + a, "both ends": c + a + c,
             "alone repeated": c + c, "middle repeated": a + c + c + b, "several": a + c + b + c + a}[pos]
 
 
 def _csv_lines_silent(first, rest, sep, stops):
-    """what the CSV reader's metadata loop does with a text that spans several lines: True when NO line is refused (the text is then read as something else)"""
+    """what the CSV reader's metadata loop does with a text that spans several lines: None when some line is refused; else how the text is read as something else:
+    'cut' (an empty line ends the metadata: the rest of the document is dropped), 'section' (a line beginning with a section prefix sends the rest of the document
+    to the table / model reader), 'lines' (every further line reads as `key<sep>value`)"""
     if first.strip().count(sep) != 1:
-        return False
+        return None
     for seg in rest:
         seg = seg.strip()
-        if seg == "" or seg.startswith(stops):
-            return True
+        if seg == "":
+            return "cut"
+        if seg.startswith(stops):
+            return "section"
         if seg.count(sep) != 1:
-            return False
-    return True
+            return None
+    return "lines"
 
 
-def _ood_excluded(fmt, sep, target, t, target_file, stops, matp):
-    """Regions where the UNCHANGED tree silently changes the text (measured; each is a recorded or a candidate finding).  They are kept out of the stream so that
-    the check stays quiet on the unchanged tree.
-    TODO(candidate findings, reported in probes/agent_notes/S3-C07.md; include the region again once each is triaged into known_findings.json or repaired):"""
+# Regions of stream C where the UNCHANGED tree does not answer "refused with a pyGAPS error, or equal" (measured; triaged by T2-C07, probes/agent_notes/T2-C07.md).
+#   RECORDED: a finding of known_findings.json.  The region is generated; the failing case carries `region` in its signature, and only when the outcome is the one the
+#             defect predicts (`_ood_predicted`): anything else in the same region is reported without the region key, i.e. as a violation.
+#   OUTSIDE:  not a violation of C07 as written — the quantifier restricts CSV / AIF keys to "keys without separator or blank" and the last sentence of the statement
+#             speaks of VALUES; a metadata key or material-property name (written as part of a key, T-C07 D4) with a blank character at a place where the unchanged tree
+#             loses it stays out of the stream (counted in `C outside: …`).
+R_CSV_TRAIL = "csv: value ends in a blank character"                                   # S55-C07a (generalises S18-csv-padded: blank, tab, CR)
+R_CSV_BREAK = "csv: line break in a value, no line refused"                            # S55-C07b
+R_CSV_SECTION = "csv: line break in a value, next line begins with a section prefix"   # S55-C07c
+R_AIF_QUOTE = "aif: value begins or ends with the quote character"                     # S55-C07d
+R_AIF_BRACKET = "aif: bracketed text"                                                  # S55-C07e
+OUT_CSV_KEY_LEAD = "csv: key begins with a blank character (outside the key domain: keys without blank)"
+OUT_CSV_KEY_BREAK = "csv: line break in a key, no line refused (outside the key domain: keys without blank)"
+OUT_AIF_KEY = "aif: key with a blank / ending in a blank character (outside the key domain: keys without blank)"
+
+
+def _line_breaks(fmt, target_file):
+    """characters that end a line when the document is read back: a file is opened with universal newlines, a string is split at newline only"""
+    return "\n\r" if (fmt == "csv" and target_file) else "\n"
+
+
+def _ood_region(fmt, sep, target, t, target_file, stops, matp):
+    """('recorded' | 'outside', label) or (None, None)"""
     import re
     vlike = target in ("metadata value", "material name", "material property value")
     if fmt == "csv":
-        segs = re.split("[\r\n]", t)
+        segs = re.split("[" + _line_breaks(fmt, target_file) + "]", t)
         if vlike:
-            # S18-csv-padded (known: trailing blank) and CANDIDATE C1: the same `line.rstrip()` / `strip()` removes a trailing tab, carriage return or newline
-            # ('ab\t' -> 'ab', '\t' -> None) — never refused
-            if t != t.rstrip():
-                return "csv: value ends in a blank character"
-            # CANDIDATE C2: a line break inside a value followed by an empty line (or a `data…` / `model…` line, or `key<sep>value` lines) is not refused: the
-            # rest of the DOCUMENT is dropped ('\n\nab' -> value None and a PointIsotherm comes back as a BaseIsotherm) or read as further metadata.
-            # With a file target a carriage return is a line break as well (universal newlines), with a string target it is not.
-            if len(segs) > 1 and _csv_lines_silent("k" + sep + segs[0], segs[1:], sep, stops):
-                return "csv: line break in a value, no line refused"
+            # C2: a line break inside a value followed by an empty line, a `data…` / `model…` line or `key<sep>value` lines: no line is refused, the rest of the DOCUMENT is
+            # dropped ('ab\n': a PointIsotherm comes back as a BaseIsotherm), handed to the table / model reader, or read as further metadata ('ab\ncd,ef': new key cd)
+            how = _csv_lines_silent("k" + sep + segs[0], segs[1:], sep, stops) if len(segs) > 1 else None
+            if how is not None:
+                return "recorded", (R_CSV_SECTION if how == "section" else R_CSV_BREAK)
+            # C1 (and S18-csv-padded): `line.rstrip()` / `line.strip()` remove every trailing blank character: 'ab\t' -> 'ab', '\t' -> None — never refused
+            if len(segs) == 1 and t != t.rstrip():
+                return "recorded", R_CSV_TRAIL
         else:
-            # CANDIDATE C3: a metadata key that begins with a blank character comes back without it (' ab' -> 'ab', '\tab' -> 'ab'; '\nab': key lost, document cut)
+            # C3: a metadata key that begins with a blank character comes back without it (' ab' -> 'ab', '\tab' -> 'ab'; '\nab': key lost, document cut)
             if target == "metadata key" and t != t.lstrip():
-                return "csv: key begins with a blank character"
+                return "outside", OUT_CSV_KEY_LEAD
             pre = matp["csv"] if target == "material property name" else ""
-            if len(segs) > 1 and _csv_lines_silent(pre + segs[0], segs[1:-1] + [segs[-1] + sep + "v"], sep, stops):
-                return "csv: line break in a key, no line refused"
+            if len(segs) > 1 and _csv_lines_silent(pre + segs[0], segs[1:-1] + [segs[-1] + sep + "v"], sep, stops) is not None:
+                return "outside", OUT_CSV_KEY_BREAK
     if fmt == "aif":
-        # CANDIDATE C4: `isotherm_from_aif(<path>)` lets gemmi's ValueError through when the FILE does not parse (the string route wraps it into ParsingError):
-        # a value with a line break, or with a quote followed by a blank, is refused with a non-pyGAPS error.  Stream C uses the string route for AIF.
-        if target_file:
-            return "aif: file target"
-        # CANDIDATE C5: the writer quotes with ' and the reader strips EVERY ' at both ends: "'ab" -> 'ab', "ab''" -> 'ab', "'" -> None (Lean: stripChar_quote_roundtrip_iff)
+        # C5: the writer quotes with ' and the reader strips EVERY ' at both ends: "'ab" -> 'ab', "ab''" -> 'ab', "'" -> None (Lean: stripChar_quote_roundtrip_iff)
         if vlike and (t[:1] == "'" or t[-1:] == "'"):
-            return "aif: value begins or ends with the quote character"
-        # S18-aif-list-text (known, SyntaxError) and CANDIDATE C6: a text in square brackets that is not a list of numbers raises ValueError('malformed node or string')
+            return "recorded", R_AIF_QUOTE
+        # C6 (same call as S18-aif-list-text): a text in square brackets that is not a list of numbers: ast.literal_eval's ValueError / SyntaxError escapes from _from_list
         if vlike and t[:1] == "[" and t[-1:] == "]":
-            return "aif: bracketed text"
-        # blanks in keys / property names become underscores (T-C07 D4: outside the stated key domain); CANDIDATE C7: a key or property name that ENDS in a tab,
-        # carriage return or newline comes back without it ('ab\t' -> 'ab'), at the start or inside it is refused
+            return "recorded", R_AIF_BRACKET
+        # blanks in keys / property names become underscores (T-C07 D4); C7: a key or property name that ENDS in a tab, carriage return or newline comes back without it
         if not vlike and (" " in t or t != t.rstrip()):
-            return "aif: key with a blank / ending in a blank character"
-    return None
+            return "outside", OUT_AIF_KEY
+    return None, None
+
+
+def _ood_set(obs, target, value):
+    """copy of an observation with the text of the target replaced"""
+    d = dict(obs["dict"])
+    mat = d["material"]
+    if target == "metadata value":
+        d["comment"] = value
+    elif target == "material name":
+        d["material"] = {**mat, "name": value} if isinstance(mat, dict) else value
+    elif target == "material property value":
+        d["material"] = {**mat, "form": value}
+    return dict(obs, dict=d)
+
+
+def _ood_get(obs, target):
+    d = obs["dict"]
+    mat = d.get("material")
+    if target == "metadata value":
+        return d.get("comment", "<absent>")
+    if target == "material name":
+        return mat.get("name", "<absent>") if isinstance(mat, dict) else mat
+    return mat.get("form", "<absent>") if isinstance(mat, dict) else "<absent>"
+
+
+def _ood_predicted(region, fmt, sep, target, t, target_file, before, after, tol):
+    """True when the imported isotherm is what the recorded defect of this region makes of the exported one — and nothing else differs"""
+    import re
+    none_if_empty = (lambda e: e if e != "" else None) if not (fmt == "aif" and target == "material name") else (lambda e: e)
+    if region == R_CSV_TRAIL:
+        return not _diff(_ood_set(before, target, none_if_empty(t.rstrip())), after, fmt, tol)
+    if region == R_AIF_QUOTE:
+        return not _diff(_ood_set(before, target, none_if_empty(t.strip("'"))), after, fmt, tol)
+    if region == R_CSV_BREAK:
+        # the first line keeps its text; what follows the broken line in the document may be lost (the material properties are written last, the data / model block after
+        # them) or come back as the default; keys that a `key<sep>value` segment spells are added.  Nothing written BEFORE the line may differ.
+        segs = re.split("[" + _line_breaks(fmt, target_file) + "]", t)
+        if _ood_get(after, target) != (segs[0].rstrip() or None):
+            return False
+        order = list(before["dict"])
+        at = {"metadata value": order.index("comment") if "comment" in order else -1, "material name": order.index("material"), "material property value": len(order)}[target]
+        spelled = {seg.strip().split(sep)[0] for seg in segs[1:] if seg.strip().count(sep) == 1}
+        cut = any(seg.strip() == "" for seg in segs[1:])
+        for where, x, y, _ in _diff(_ood_set(before, target, _ood_get(after, target)), after, fmt, tol):
+            m = re.match(r"metadata(?: key)? '(.*)'$", where)
+            key = m.group(1) if m else None
+            if key == "material":       # the properties are written after every metadata line
+                ma, mb = before["dict"]["material"], after["dict"]["material"]
+                pa, pb = (ma if isinstance(ma, dict) else {"name": ma}), (mb if isinstance(mb, dict) else {"name": mb})
+                if target == "material name":
+                    pa = {**pa, "name": pb.get("name")}
+                if target == "material property value":
+                    pa = {**pa, "form": pb.get("form")}
+                if cut and all(k in pa and isogen.same_value(pa[k], v, tol=1e-12) for k, v in pb.items()):
+                    continue
+                return False
+            if key is not None and key in order:
+                if cut and order.index(key) > at:
+                    continue
+                return False
+            if key is not None:
+                if key in spelled and x == "'<absent>'":
+                    continue
+                return False
+            if cut and (where == "class" and y == "BaseIsotherm" or where.startswith("data column") and where.endswith("missing") or where == "model missing"):
+                continue
+            return False
+        return True
+    return False
+
+
+def _raised_in(e):
+    """innermost function of pyGAPS on the traceback of an exception"""
+    tb, name = e.__traceback__, None
+    while tb is not None:
+        if os.sep + "pygaps" + os.sep in tb.tb_frame.f_code.co_filename:
+            name = tb.tb_frame.f_code.co_name
+        tb = tb.tb_next
+    return name
 
 
 def _ood_stream(ck, pg, tmpdir, pool, section, matp, tol, io):
@@ -794,7 +915,7 @@ def _ood_stream(ck, pg, tmpdir, pool, section, matp, tol, io):
     key_bodies = OOD_KEY_BODIES + [s for s in plain if " " not in s][:4]
     cases = []
     # the core, in every run: the characters each format gives a meaning to, at every position class of every target
-    own = {"csv": lambda sep: [sep, "\n"], "aif": lambda sep: ["'", '"', "\n", " "], "xl": lambda sep: [" ", "\n"]}
+    own = {"csv": lambda sep: list(dict.fromkeys([sep, "\n", "\t", "\r"])), "aif": lambda sep: ["'", '"', "\n", " ", "["], "xl": lambda sep: [" ", "\n"]}
     for fmt, sep in OOD_FORMATS:
         for c in own[fmt](sep):
             for target in OOD_TARGETS:
@@ -810,19 +931,19 @@ def _ood_stream(ck, pg, tmpdir, pool, section, matp, tol, io):
     reported = set()        # one replay per (format, separator, target, character, clause): the position classes of one defect are not 10 findings
 
     def report(sig, detail):
-        key = (sig["format"], sig.get("separator"), sig["target"], sig["character"], sig["clause"])
+        key = (sig["format"], sig.get("separator"), sig["target"], sig["character"], sig["clause"], sig.get("region"))
         if key not in reported:
             reported.add(key)
             ck.fail_case(sig, detail)
     for j, (fmt, sep, c, target, pos, kind) in enumerate(cases):
         keyish = target in ("metadata key", "material property name")
-        t = _ood_place(rng, c, pos, key_bodies if keyish else bodies)
-        target_file = (rng.random() < 0.5) if fmt == "csv" else (fmt == "xl")
-        why = _ood_excluded(fmt, sep, target, t, target_file, stops, matp)
-        if why is None and keyish and (t in _isogen.RESERVED or t.strip().startswith(prefixes) or t.strip() in ("name", "")):
-            why = "key: reserved name / a prefix a format uses itself (stream B)"
-        if why is not None:
-            ck.count(("ood-excluded", fmt, target, why), nontrivial=False, bucket="C excluded: " + why)
+        t = _ood_place(rng, c, pos, key_bodies if keyish else bodies, sep, stops)
+        target_file = (rng.random() < 0.5) if fmt in ("csv", "aif") else (fmt == "xl")
+        status, region = _ood_region(fmt, sep, target, t, target_file, stops, matp)
+        if status is None and keyish and (t in _isogen.RESERVED or t.strip().startswith(prefixes) or t.strip() in ("name", "")):
+            status, region = "outside", "key: reserved name / a prefix a format uses itself (stream B)"
+        if status == "outside":
+            ck.count(("ood-outside", fmt, target, region), nontrivial=False, bucket="C outside: " + region)
             continue
         cc = _isogen.content(rng, kind=kind, domain="text")
         if kind == "point" and any(b < a for a, b in zip(cc["branch"], cc["branch"][1:])):
@@ -848,11 +969,11 @@ def _ood_stream(ck, pg, tmpdir, pool, section, matp, tol, io):
             return c2
 
         def trip(c2, name):
-            """('refused' | 'raised' | 'built-not' | 'differs' | 'equal', information)"""
+            """('refused' | 'raised' | 'built-not' | 'differs' | 'equal', information, observation exported, observation imported)"""
             try:
                 iso = _isogen.build(pg, c2)
             except Exception as e:  # noqa
-                return "built-not", repr(e)[:200]
+                return "built-not", repr(e)[:200], None, None
             before = _isogen.observe(pg, iso)
             try:
                 if fmt == "csv":
@@ -866,30 +987,37 @@ def _ood_stream(ck, pg, tmpdir, pool, section, matp, tol, io):
                     p = os.path.join(tmpdir, name + ".xls")
                     io["to_xl"](iso, p)
                     back = io["from_xl"](p)
+                elif target_file:
+                    p = os.path.join(tmpdir, name + ".aif")
+                    io["to_aif"](iso, p)
+                    back = io["from_aif"](p)
                 else:
                     back = io["from_aif"](io["to_aif"](iso))
             except io["pgError"] as e:
-                return "refused", repr(e)[:200]
+                return "refused", repr(e)[:200], before, None
             except Exception as e:  # noqa
-                return "raised", e
-            diffs = _diff(before, _isogen.observe(pg, back), fmt, tol)
-            return ("differs", {"differences": [[w, x, y] for w, x, y, _ in diffs[:4]], "class read": type(back).__name__}) if diffs else ("equal", None)
+                return "raised", e, before, None
+            seen = _isogen.observe(pg, back)
+            diffs = _diff(before, seen, fmt, tol)
+            return ("differs", {"differences": [[w, x, y] for w, x, y, _ in diffs[:4]], "class read": type(back).__name__}, before, seen) if diffs else ("equal", None, before, seen)
 
         c2 = with_text(t)
         sig = {"format": fmt, "class": kind, "target": target, "character": CHAR_NAMES.get(c, "punctuation") if pos != "wrapped" else "pair", "position": pos}
         if fmt == "csv":
             sig["separator"] = CHAR_NAMES.get(sep, sep)
         detail = {"text": t, "separator": sep, "target": "file" if target_file else "string", "content": _content(c2), "meta": _js(c2["meta"])}
-        out, info = trip(c2, f"o{j}")
+        out, info, before, seen = trip(c2, f"o{j}")
         if out == "built-not":
             ck.count(("ood-build", fmt, target, t), nontrivial=False, bucket="C construction refused")
             continue
         ck.count(("ood", fmt, sep, kind, target, t), bucket=f"C {fmt}:{out}:{target}", sample={"format": fmt, "separator": sep, target: t, "outcome": out} if j % 397 == 0 else None)
+        if region is not None:
+            ck.count(("ood-region", fmt, sep, kind, target, t), nontrivial=False, bucket=f"C region {region}: {out}")
         if out in ("refused", "equal"):
             continue
         # control: the same isotherm with a plain word in place of the text.  When that does not come back either, the text is not the
         # reason: ONE case per (format, separator, class), whatever the text was
-        ctl, cinfo = trip(with_text("kx9" if keyish else "plainword"), f"o{j}c")
+        ctl, cinfo, _, _ = trip(with_text("kx9" if keyish else "plainword"), f"o{j}c")
         if ctl not in ("equal", "refused") or (ctl == "refused" and out == "raised"):
             key = ("control", fmt, sep, kind)
             if key not in reported:
@@ -898,10 +1026,31 @@ def _ood_stream(ck, pg, tmpdir, pool, section, matp, tol, io):
                               "clause": "isotherm with plain text metadata does not come back (stream C)"},
                              {**detail, "text": "plainword / kx9 in place of the text", "outcome": ctl, "information": cinfo if ctl != "raised" else repr(cinfo)[:300]})
             continue
-        if out == "raised":
-            report({**sig, "clause": "text the format cannot carry: refusal is not a pyGAPS error", "error": type(info).__name__}, {**detail, "error": repr(info)[:300]})
+        if region == R_CSV_SECTION:
+            # the rest of the document goes to the table / model reader: what comes of it depends on what follows (as for a KEY with such a prefix, S46-C07): any outcome is ONE case
+            report({**sig, "region": region, "clause": "text the format cannot carry: neither refused with a pyGAPS error nor equal (document re-read from the broken line)"},
+                   {**detail, "outcome": out, "information": repr(info)[:300]})
+        elif out == "raised":
+            where = _raised_in(info)
+            report({**sig, **({"region": region} if region == R_AIF_BRACKET and where == "_from_list" else {}), "raised_in": where,
+                    "clause": "text the format cannot carry: refusal is not a pyGAPS error", "error": type(info).__name__}, {**detail, "error": repr(info)[:300]})
         else:
-            report({**sig, "clause": "text the format cannot carry: neither refused nor equal (silently changed)"}, {**detail, **info})
+            as_recorded = region is not None and _ood_predicted(region, fmt, sep, target, t, target_file, before, seen, tol)
+            report({**sig, **({"region": region} if as_recorded else {}), "clause": "text the format cannot carry: neither refused nor equal (silently changed)"},
+                   {**detail, **info, **({"region entered, outcome is not the recorded one": region} if region is not None and not as_recorded else {})})
+
+
+def _is_negzero(v):
+    return isinstance(v, float) and v == 0.0 and math.copysign(1.0, v) < 0
+
+
+def _has_negzero(c):
+    return any(_is_negzero(v) for v in list(c["meta"].values()) + list(c["material_props"].values()))
+
+
+def _without_negzero(c):
+    return dict(c, meta={k: (0.0 if _is_negzero(v) else v) for k, v in c["meta"].items()},
+                material_props={k: (0.0 if _is_negzero(v) else v) for k, v in c["material_props"].items()})
 
 
 def _key_class(fmt, key, section, matp):
